@@ -333,6 +333,7 @@ def run(ctx):
                                      "non-trivial = a CAS failed or a call failed in the implementation trace"})
         if (not ok or ctx.failures) and not ctx.violations:
             search(ctx, exe)
+    core.init_contract(ctx, ["fiber_rwlock"])  # rt/h_init.c: real init on dirty memory
     core.finish(ctx, extra_assumptions=ASSUME)
 
 
@@ -353,6 +354,8 @@ def search(ctx, exe):
 
 
 def replay(ctx, payload):
+    if payload.get("harness") == "h_init":
+        return core.replay_init(ctx, payload)
     exe = build(ctx)
     c = payload.get("case")
     if not exe or not c:
